@@ -70,7 +70,7 @@ def roleCounts (r : String) : Option (Cnt × Nat) :=
 
 /-- roles executed: list of role indices, one per execution of a role function -/
 def executions (mode : String) (threads iters nroles : Nat) : List Nat × Nat :=
-  let nSink := if mode = "S" then threads else if mode = "D" || mode = "G" then 0 else threads / 2
+  let nSink := if mode = "S" then threads else if mode = "D" || mode = "G" || mode = "J" then 0 else threads / 2
   let nDirect := threads - nSink
   let sinkEx := (List.range (nSink * iters)).map (· % nroles)
   let directEx := (List.range nDirect).flatMap fun i => List.replicate iters ((nSink + i) % nroles)
